@@ -176,6 +176,9 @@ type recResult struct {
 	Extra    int // messages delivered after the sentinel (must be 0)
 	CloseErr string
 	Skipped  bool
+	// life after the recovery: three more messages enqueued and taken (put, take, put, put, take, take);
+	// what came out, as 1..3 (0 = bytes that are none of them)
+	Post []int
 }
 
 var hungRecoveries int32
@@ -235,6 +238,51 @@ loop:
 		case <-time.After(2 * time.Millisecond):
 		}
 	}
+	if res.Sentinel && !res.Hang && res.Extra == 0 {
+		// the restarted queue keeps spooling: writes interleaved with reads, sizes unlike each other
+		res.Post = []int{}
+		sizes := []int{12, 44, 4}
+		for k := range sizes {
+			lens[sentinelID+1+k] = sizes[k]
+		}
+		put := func(k int) bool {
+			pe := make(chan error, 1)
+			go func() { pe <- q.Put(payload(sentinelID+1+k, sizes[k])) }()
+			select {
+			case e := <-pe:
+				if e != nil {
+					res.CloseErr = "put: " + e.Error()
+				}
+				return true
+			case <-time.After(20 * time.Second):
+				res.Hang = true
+				return false
+			}
+		}
+		take := func() bool {
+			select {
+			case msg := <-q.ReadChan():
+				id := identify(msg, lens)
+				if id > sentinelID {
+					res.Post = append(res.Post, id-sentinelID)
+				} else {
+					res.Post = append(res.Post, 0)
+				}
+				return true
+			case <-time.After(20 * time.Second):
+				res.Hang = true
+				return false
+			}
+		}
+		_ = put(0) && take() && put(1) && put(2) && take() && take()
+		if !res.Hang {
+			select {
+			case <-q.ReadChan():
+				res.Extra++
+			case <-time.After(time.Millisecond):
+			}
+		}
+	}
 	if !res.Hang {
 		done := make(chan error, 1)
 		go func() { done <- q.Close() }()
@@ -248,6 +296,13 @@ loop:
 		}
 	}
 	return res
+}
+
+func postOf(res recResult) []int {
+	if res.Post == nil {
+		return []int{}
+	}
+	return res.Post
 }
 
 type recorder struct {
@@ -789,6 +844,7 @@ func TestDQ(t *testing.T) {
 				ev["sentinel"] = res.Sentinel
 				ev["hang"] = res.Hang
 				ev["extra"] = res.Extra
+				ev["post"] = postOf(*res)
 				ev["err"] = res.CloseErr
 				ev["skipped"] = res.Skipped
 				ev["m"] = []int{s.m.N, s.m.C, s.m.WS, s.m.CS}
@@ -941,6 +997,7 @@ func TestDQ(t *testing.T) {
 				ev["sentinel"] = res.Sentinel
 				ev["hang"] = res.Hang
 				ev["extra"] = res.Extra
+				ev["post"] = postOf(*res)
 				ev["err"] = res.CloseErr
 				ev["skipped"] = res.Skipped
 				ev["m"] = []int{s.m.N, s.m.C, s.m.WS, s.m.CS}
